@@ -42,6 +42,9 @@ struct AccCase {
     /// 10 = the frame pointer, whose value the monitor does not predict); for `st imm`, where the
     /// field is unused, a stray value the instruction must ignore
     src_field: u8,
+    /// registers playing the roles the program text below gives to r2 (computed base), r4 (stored
+    /// constant) and, for ldx, r0 (destination; the value is then moved to r0)
+    regs: (u8, u8, u8),
 }
 
 #[derive(Clone, Copy, Debug)]
@@ -147,7 +150,12 @@ fn build_prog(c: &AccCase, pkt_base: u64) -> Vec<u8> {
                 _ => 2,
             };
             match c.acc {
-                Acc::Ldx => v.push(Insn::new(opc, 0, base, c.off, 0)),
+                Acc::Ldx => {
+                    v.push(Insn::new(opc, c.regs.2, base, c.off, 0));
+                    if c.regs.2 != 0 {
+                        v.push(Insn::new(MOV64_REG, 0, c.regs.2, 0, 0));
+                    }
+                }
                 Acc::St => v.push(Insn::new(opc, base, c.src_field, c.off, ST_IMM)),
                 Acc::Stx | Acc::Xadd => {
                     v.push(Insn::new(LDDW, 4, 0, 0, STORE_VAL as u32 as i32));
@@ -172,6 +180,20 @@ fn build_prog(c: &AccCase, pkt_base: u64) -> Vec<u8> {
         }
     }
     v.push(Insn::new(EXIT, 0, 0, 0, 0));
+    // register roles: r2 -> regs.0, r4 -> regs.1 (lddw second halves and r0/r1/r5/r10 untouched)
+    if !matches!(c.acc, Acc::LdAbs | Acc::LdInd) && (c.regs.0 != 2 || c.regs.1 != 4) {
+        let map = |r: u8| if r == 2 { c.regs.0 } else if r == 4 { c.regs.1 } else { r };
+        let mut second_half = false;
+        for i in v.iter_mut() {
+            if second_half {
+                second_half = false;
+                continue;
+            }
+            second_half = i.opc == LDDW;
+            i.dst = map(i.dst);
+            i.src = map(i.src);
+        }
+    }
     encode_prog(&v)
 }
 
@@ -413,11 +435,11 @@ pub fn run(a: &Args, rep: &mut Report, cl: bool) {
                     if tt.wrapping_sub(pkt_base) > u32::MAX as u64 {
                         continue;
                     }
-                    cases.push(AccCase { acc, width, target: t, off: 0, tag: tname, warm: false, via_set_program: rng.chance(1, 4), direct: 0, src_field: 0 });
+                    cases.push(AccCase { acc, width, target: t, off: 0, tag: tname, warm: false, via_set_program: rng.chance(1, 4), direct: 0, src_field: 0, regs: (2, 4, 0) });
                 }
                 Acc::LdInd => {
                     let Target::Abs(_) = t else { continue };
-                    cases.push(AccCase { acc, width, target: t, off: off.max(0), tag: tname, warm: false, via_set_program: rng.chance(1, 4), direct: 0, src_field: 0 });
+                    cases.push(AccCase { acc, width, target: t, off: off.max(0), tag: tname, warm: false, via_set_program: rng.chance(1, 4), direct: 0, src_field: 0, regs: (2, 4, 0) });
                 }
                 _ => {
                     // stack targets: half of them addressed through r10 itself (or an unmodified
@@ -442,7 +464,17 @@ pub fn run(a: &Args, rep: &mut Report, cl: bool) {
                         Acc::St => *rng.pick(&[0u8, 0, 0, 10, 2, 7]),
                         _ => 0,
                     };
-                    cases.push(AccCase { acc, width, target: t, off, tag: tname, warm, via_set_program: rng.chance(1, 4), direct, src_field })
+                    // register roles (every register maps to another x86 register / Cranelift variable)
+                    let regs = if rng.chance(1, 2) {
+                        (2, 4, 0)
+                    } else {
+                        let b = *rng.pick(&[3u8, 6, 7, 8, 9]);
+                        let sreg = *rng.pick(&[4u8, 8, 9, 6]);
+                        let d = *rng.pick(&[0u8, 6, 9, 3]);
+                        if b == sreg || d == b { (b, 4, 0) } else { (b, sreg, d) }
+                    };
+                    let src_field = if acc == Acc::Stx && src_field == 4 { 4 } else { src_field };
+                    cases.push(AccCase { acc, width, target: t, off, tag: tname, warm, via_set_program: rng.chance(1, 4), direct, src_field, regs })
                 }
             }
         }
